@@ -497,11 +497,16 @@ pub trait Sampler: Send + Sync {
     /// serde round trips (value route, text route, text) if the type has serde impls
     fn serde_rt(&self) -> Option<(Result<Box<dyn Sampler>, String>, Result<Box<dyn Sampler>, String>, String)>;
     fn serde_from_text(&self, s: &str) -> Option<Result<Box<dyn Sampler>, String>>;
+    /// `Clone::clone_from(self, other)`; false if the concrete types differ
+    fn clone_from_dyn(&mut self, other: &dyn Sampler) -> bool;
+    /// multi-output distributions: `sample_to_slice` into a buffer pre-filled with junk (None for other types)
+    fn sample_into_dirty(&self, rng: &mut VRng, junk: u64) -> Option<Val>;
 }
 
 pub struct Wrap<D, T> {
     pub d: D,
     _t: PhantomData<fn() -> T>,
+    dirty: Option<fn(&D, &mut VRng, u64) -> Val>,
 }
 
 impl<D, T> Sampler for Wrap<D, T>
@@ -534,6 +539,7 @@ where
         Box::new(Wrap::<D, T> {
             d: self.d.clone(),
             _t: PhantomData,
+            dirty: self.dirty,
         })
     }
     fn as_any(&self) -> &dyn Any {
@@ -547,13 +553,27 @@ where
     }
     fn serde_rt(&self) -> Option<(Result<Box<dyn Sampler>, String>, Result<Box<dyn Sampler>, String>, String)> {
         let rt = self.d.serde_rt()?;
+        let dirty = self.dirty;
         let bx = |r: Result<D, String>| -> Result<Box<dyn Sampler>, String> {
-            r.map(|d| Box::new(Wrap::<D, T> { d, _t: PhantomData }) as Box<dyn Sampler>)
+            r.map(|d| Box::new(Wrap::<D, T> { d, _t: PhantomData, dirty }) as Box<dyn Sampler>)
         };
         Some((bx(rt.via_value), bx(rt.via_text), rt.text))
     }
     fn serde_from_text(&self, s: &str) -> Option<Result<Box<dyn Sampler>, String>> {
-        D::serde_from_text(s).map(|r| r.map(|d| Box::new(Wrap::<D, T> { d, _t: PhantomData }) as Box<dyn Sampler>))
+        let dirty = self.dirty;
+        D::serde_from_text(s).map(|r| r.map(|d| Box::new(Wrap::<D, T> { d, _t: PhantomData, dirty }) as Box<dyn Sampler>))
+    }
+    fn clone_from_dyn(&mut self, other: &dyn Sampler) -> bool {
+        match other.as_any().downcast_ref::<Wrap<D, T>>() {
+            Some(o) => {
+                self.d.clone_from(&o.d);
+                true
+            }
+            None => false,
+        }
+    }
+    fn sample_into_dirty(&self, rng: &mut VRng, junk: u64) -> Option<Val> {
+        self.dirty.map(|f| f(&self.d, rng, junk))
     }
 }
 
@@ -562,7 +582,22 @@ where
     D: Distribution<T> + Subject,
     T: OutVal + 'static,
 {
-    Box::new(Wrap::<D, T> { d, _t: PhantomData })
+    Box::new(Wrap::<D, T> { d, _t: PhantomData, dirty: None })
+}
+
+fn dirty_dirichlet<F: num_traits::Float + Default>(d: &Dirichlet<F>, rng: &mut VRng, junk: u64) -> Vec<F>
+where
+    Dirichlet<F>: rand_distr::multi::MultiDistribution<F>,
+    StandardNormal: Distribution<F>,
+    Exp1: Distribution<F>,
+    Open01: Distribution<F>,
+{
+    use rand_distr::multi::MultiDistribution;
+    let n = d.sample_len();
+    // junk that looks like a previous sample: values in (0,1)
+    let mut buf: Vec<F> = (0..n).map(|i| F::from(((crate::rng::mix(junk ^ i as u64) >> 11) as f64) * 2f64.powi(-53)).unwrap()).collect();
+    d.sample_to_slice(rng, &mut buf);
+    buf
 }
 
 fn es<E: Debug>(e: E) -> String {
@@ -660,9 +695,13 @@ pub fn build(cell: &Cell) -> Result<Box<dyn Sampler>, String> {
         Fam::Dirichlet => match cell.ft {
             Ft::F32 => {
                 let a: Vec<f32> = p.iter().map(|&x| x as f32).collect();
-                Dirichlet::<f32>::new(&a).map(|d| bx::<_, Vec<f32>>(d)).map_err(es)
+                Dirichlet::<f32>::new(&a)
+                    .map(|d| Box::new(Wrap::<Dirichlet<f32>, Vec<f32>> { d, _t: PhantomData, dirty: Some(|d, r, j| Val::VF32(dirty_dirichlet::<f32>(d, r, j))) }) as Box<dyn Sampler>)
+                    .map_err(es)
             }
-            Ft::F64 => Dirichlet::<f64>::new(p).map(|d| bx::<_, Vec<f64>>(d)).map_err(es),
+            Ft::F64 => Dirichlet::<f64>::new(p)
+                .map(|d| Box::new(Wrap::<Dirichlet<f64>, Vec<f64>> { d, _t: PhantomData, dirty: Some(|d, r, j| Val::VF64(dirty_dirichlet::<f64>(d, r, j))) }) as Box<dyn Sampler>)
+                .map_err(es),
         },
         Fam::AliasU8 => alias_int!(cell, u8),
         Fam::AliasU16 => alias_int!(cell, u16),
